@@ -171,3 +171,16 @@ package realm
 //@   modifies p[0:len(p)], hst, rwlock, innerN, innerAddrPl, innerAddrTag, innerRow, diverted
 //@   loop 0
 //@     invariant !rwlock
+
+// ---------------------------------------------------------------------------
+// STUN replies (C03): decoding is delegated to the STUN library (no contract: assumed not to
+// panic); what this package does with the decoded message and address is panic-free.
+//@ func parseSTUNBindingResponse
+//@   props C03
+//@   modifies any
+//@ func netIPPortToAddrPort
+//@   props C03
+//@   modifies any
+// Discover / DiscoverWithDemux keep maps keyed by arrays and netip.AddrPort, which the map model
+// does not cover; their handling of received bytes is buf[:n] with n from ReadFrom and the
+// call of parseSTUNBindingResponse above.
